@@ -14,7 +14,7 @@ fn quiet() -> Duration {
 }
 
 enum Kind {
-    Down { name: String, b: usize, w: usize },
+    Down { name: String, b: usize, w: usize, twice: bool },
     Up { name: String, b: usize, w: usize, content: Vec<u8> },
     Intruder { what: String },
     /// sends datagrams (well-formed or not) from its own endpoint to the endpoint that serves client `victim`
@@ -125,12 +125,20 @@ impl Client {
                 self.result = res;
                 self.done = true;
             }
-            Kind::Down { name, b, w } => {
-                let (b, w) = (*b, *w);
+            Kind::Down { name, b, w, twice } => {
+                let (b, w, twice) = (*b, *w, *twice);
                 if !self.started {
                     self.started = true;
-                    let p = Packet::Rrq { filename: name.clone(), mode: "octet".into(), options: opts(b, w) };
+                    let mut o = opts(b, w);
+                    if twice {
+                        o.push(TransferOption { option: OptionType::Timeout, value: 1 });
+                    }
+                    let p = Packet::Rrq { filename: name.clone(), mode: "octet".into(), options: o };
                     self.send(&p, listener);
+                    if twice {
+                        std::thread::sleep(Duration::from_millis(30));
+                        self.send(&p, listener);
+                    }
                 } else if let Some(to) = self.peer {
                     self.send(&Packet::Ack(((self.expected - 1) % 65536) as u16), to);
                 } else {
@@ -147,6 +155,10 @@ impl Client {
                         Ok(Packet::Data { block_num, data }) => {
                             self.peer = Some(from);
                             if block_num as u32 == self.expected % 65536 {
+                                if twice && self.expected == 1 {
+                                    // longer than the negotiated timeout: the stale worker of the first request copy ends meanwhile
+                                    std::thread::sleep(Duration::from_millis(1400));
+                                }
                                 self.expected += 1;
                                 let short = data.len() < b;
                                 self.got.extend_from_slice(&data);
@@ -266,12 +278,15 @@ pub fn multi_line(toks: &[&str]) -> String {
     if !reset_sandbox(&root, &fl, toks[3]) {
         return "bad-op".into();
     }
-    let listener: SocketAddr = format!("127.0.0.1:{}", port).parse().unwrap();
+    let listener: SocketAddr = listener_of(&fl, port);
     let mut clients = vec![];
     fn parse_kind(spec: &str) -> Option<Kind> {
         let p: Vec<&str> = spec.split(':').collect();
         Some(match p.as_slice() {
-            ["d", name, b, w] => Kind::Down { name: name.to_string(), b: b.parse().unwrap_or(512), w: w.parse().unwrap_or(1) },
+            ["d", name, b, w] => Kind::Down { name: name.to_string(), b: b.parse().unwrap_or(512), w: w.parse().unwrap_or(1), twice: false },
+            // `D`: the request datagram is sent twice (timeout=1 negotiated) and the client pauses 1.4 s after its first DATA: the
+            // worker started by the first copy gives up while the transfer started by the second is still running
+            ["D", name, b, w] => Kind::Down { name: name.to_string(), b: b.parse().unwrap_or(512), w: w.parse().unwrap_or(1), twice: true },
             ["u", name, b, w, rest @ ..] => {
                 let c = parse_content(&rest.join(":"))?;
                 Kind::Up { name: name.to_string(), b: b.parse().unwrap_or(512), w: w.parse().unwrap_or(1), content: c }
@@ -294,7 +309,7 @@ pub fn multi_line(toks: &[&str]) -> String {
         let queue = kinds;
         clients.push(Client {
             kind,
-            sock: UdpSocket::bind("127.0.0.1:0").unwrap(),
+            sock: bind_client(&fl),
             peer: None,
             started: false,
             done: false,
